@@ -85,6 +85,47 @@ fn roundtrips(bytes: [u8; 32], rep: &mut Report, rng: &mut Rng) {
                 break;
             }
         }
+        // differences that cancel under a lane-wise fold: the same bit(s) flipped in two, three or
+        // four different 2/4/8/16-byte lanes; whole lanes swapped; and a far-away random value
+        for bit in 0..256usize {
+            for &lane in &[16usize, 32, 64, 128] {
+                let mut o = bytes;
+                for k in 0..(2 + (bit + lane) % 3) {
+                    let b2 = (bit + k * lane) % 256;
+                    o[b2 / 8] ^= 1 << (b2 % 8);
+                }
+                if o == bytes {
+                    continue;
+                }
+                let oh = Hash::from_bytes(o);
+                if h == oh || !(h != oh) || h == o || h == o[..] || oh == bytes || oh == bytes[..] {
+                    bad = Some(format!("a difference in bit {} repeated in lanes {} bits apart is not detected ({} vs {})", bit, lane, hex(&bytes), hex(&o)));
+                    break;
+                }
+            }
+        }
+        for &lane in &[4usize, 8, 16] {
+            let mut o = bytes;
+            for i in 0..lane {
+                o.swap(i, 32 - lane + i);
+            }
+            let differs = o != bytes;
+            let oh = Hash::from_bytes(o);
+            if (h == oh) == differs || (h == o) == differs || (h == o[..]) == differs {
+                bad = Some(format!("swapping the first and last {}-byte lanes: equality is {} but the bytes {}", lane, h == oh, if differs { "differ" } else { "are identical" }));
+            }
+        }
+        {
+            let mut o = bytes;
+            for (i, x) in o.iter_mut().enumerate() {
+                *x = x.wrapping_mul(167).wrapping_add(i as u8 ^ bytes[(i * 7) % 32]);
+            }
+            let differs = o != bytes;
+            let oh = Hash::from_bytes(o);
+            if (h == oh) == differs || (h == o) == differs || (h == o[..]) == differs {
+                bad = Some("a value differing in many bytes compares equal".into());
+            }
+        }
         // slices of other lengths are never equal
         for len in [0usize, 1, 31, 33, 64] {
             let mut s = vec![0u8; len];
@@ -97,7 +138,7 @@ fn roundtrips(bytes: [u8; 32], rep: &mut Report, rng: &mut Rng) {
         }
         bad
     });
-    rep.evaluations += 256 + 5;
+    rep.evaluations += 256 + 5 + 1024 + 4;
     match r {
         Ok(None) => {}
         Ok(Some(b)) => v(rep, "equality", format!("{}: {}", want_hex, b)),
@@ -151,6 +192,19 @@ fn serde_case(bytes: [u8; 32], rep: &mut Report) {
         let legacy: Hash = ciborium::from_reader(&cbor_bytes(&bytes)[..]).map_err(|e| format!("legacy byte-string form rejected: {}", e))?;
         if legacy.as_bytes() != &bytes {
             return Err("legacy byte-string form decoded to different bytes".into());
+        }
+        // a non-self-describing binary format (sequences carry a length prefix, tuples and arrays
+        // do not): Serialize and Deserialize must agree on which of the two a Hash is
+        let bin = crate::binfmt::to_bytes(&h).map_err(|e| format!("binary format: serialize failed: {}", e))?;
+        let (back, used): (Hash, usize) = crate::binfmt::from_bytes(&bin).map_err(|e| format!("binary (non-self-describing) format: {} bytes written by Serialize are rejected by Deserialize: {}", bin.len(), e))?;
+        if back.as_bytes() != &bytes || used != bin.len() {
+            return Err(format!("binary (non-self-describing) format round trip: wrote {} bytes, read back {} of them as {}", bin.len(), used, hex(back.as_bytes())));
+        }
+        let marker = 0xA5C3_0F19u32 ^ bytes[3] as u32;
+        let bin = crate::binfmt::to_bytes(&(h, marker, h)).map_err(|e| format!("binary format: serialize failed: {}", e))?;
+        let ((b1, mk, b2), used): ((Hash, u32, Hash), usize) = crate::binfmt::from_bytes(&bin).map_err(|e| format!("binary (non-self-describing) format: a (Hash, u32, Hash) tuple does not read back: {}", e))?;
+        if b1.as_bytes() != &bytes || b2.as_bytes() != &bytes || mk != marker || used != bin.len() {
+            return Err("binary (non-self-describing) format: a Hash embedded in a tuple shifts its neighbours".into());
         }
         // Wrong-length sequences are NOT asserted: the statement only requires the conversions to
         // be lossless (and from_slice to reject other lengths); what a format library does with a
@@ -291,4 +345,4 @@ pub fn run(args: &Args) -> Report {
     rep
 }
 
-pub const RULE: &str = "decomposed coverage of the value space: every byte value at every position (32x256) + seeded random hashes through to_hex/Display/from_hex (lower, upper, mixed)/FromStr/from_bytes/From/Into/from_slice/as_slice, equality in all three PartialEq impls against the identical copy and all 256 single-bit neighbours and wrong-length slices, std Hash consistency, serde JSON + CBOR (sequence form, legacy byte string, wrong lengths); exhaustive: every byte value at every position of a valid hex string, all hex lengths 0..=130, all slice lengths 0..=100; distinct = distinct (position,value) pairs / lengths / sampled values";
+pub const RULE: &str = "decomposed coverage of the value space: every byte value at every position (32x256) + seeded random hashes through to_hex/Display/from_hex (lower, upper, mixed)/FromStr/from_bytes/From/Into/from_slice/as_slice, equality in all three PartialEq impls against the identical copy and all 256 single-bit neighbours and wrong-length slices, std Hash consistency, cancelling multi-lane differences, serde JSON + CBOR (sequence form, legacy byte string) + a length-prefixed non-self-describing binary format; exhaustive: every byte value at every position of a valid hex string, all hex lengths 0..=130, all slice lengths 0..=100; distinct = distinct (position,value) pairs / lengths / sampled values";
